@@ -1562,6 +1562,264 @@ Proof.
 Qed.
 End CTIperm.
 
+(** ---- opening and saving the saved package again ---- *)
+
+Lemma int_targets_sem x R y :
+  In y (int_targets x R) <-> exists i t, In (i, t, false, y) (map (rel_sem x) R).
+Proof.
+  unfold int_targets. rewrite in_map_iff. split.
+  - intros (r & <- & Hr). apply filter_In in Hr as [Hr He]. apply negb_true_iff in He.
+    exists (r_id r), (r_type r). apply in_map_iff. exists r. split; auto.
+    unfold rel_sem. rewrite He. reflexivity.
+  - intros (i & t & H). apply in_map_iff in H as (r & Hs & Hr). unfold rel_sem in Hs.
+    destruct (is_ext r) eqn:Ee; inversion Hs; subst. exists r. split; auto.
+    apply filter_In. split; auto. rewrite Ee. reflexivity.
+Qed.
+
+Lemma out_rel_mode src l : r_mode (out_rel src l) <> MOther.
+Proof. unfold out_rel. destruct (l_ext l); simpl; discriminate. Qed.
+
+Lemma out_rel_id src l : r_id (out_rel src l) = l_id l.
+Proof. unfold out_rel. destruct (l_ext l); reflexivity. Qed.
+
+Lemma out_rel_ext src l : is_ext (out_rel src l) = l_ext l.
+Proof. unfold out_rel, is_ext. destruct (l_ext l); reflexivity. Qed.
+
+Section Idem.
+Context {blob : Type}.
+Variable E : env blob.
+Variable p : phys blob.
+Hypothesis Hwf : wf E p.
+Variable cb : blob.
+Variable c : cts.
+Hypothesis Hcb : lookup ct_uri p = Some cb.
+Hypothesis Hc : dec_ct E cb = Some c.
+Hypothesis Hcodec : codec_ok E.
+Hypothesis Henv : env_ok E.
+Hypothesis Hnc : no_default_clash E p.
+
+Notation k := (spec_pkg E p c).
+Notation names := (iter_part_names (spec_pkg E p c)).
+Notation PL := (map (spec_part E p c) (iter_part_names (spec_pkg E p c))).
+Notation s1 := (save E (spec_pkg E p c)).
+Notation c1 := (content_types_item E (map (spec_part E p c) (iter_part_names (spec_pkg E p c)))).
+
+Definition src_ok (x : str) : Prop := x = root \/ In x names.
+
+Lemma src_ok_reach x : src_ok x <-> reachable E p x.
+Proof.
+  unfold src_ok. rewrite (names_reach E p Hwf c). split.
+  - intros [->|[H _]]; auto. apply r0.
+  - intros H. destruct (str_eq_dec x root); auto.
+Qed.
+
+Lemma rels_s1 x : src_ok x ->
+  rels_for E s1 x = Some (out_rels x (map (conv_rel x) (rels_or_nil E p x))).
+Proof. apply (rels_for_save E p Hwf c Hcodec). Qed.
+
+Lemma succs_s1 x : src_ok x -> forall y, In y (succs E s1 x) <-> In y (succs E p x).
+Proof.
+  intros Hx y. destruct (rels_preserved E p Hwf c Hcodec x Hx) as (rs & rs' & H1 & H2 & HP).
+  rewrite (succs_rels E s1 _ _ H2), (succs_rels E p _ _ H1), !int_targets_sem.
+  split; intros (i & t & H); exists i, t.
+  - eapply Permutation_in; [apply Permutation_sym, HP|auto].
+  - eapply Permutation_in; [apply HP|auto].
+Qed.
+
+Lemma reach_s1 x : reachable E s1 x <-> reachable E p x.
+Proof.
+  split; intros H.
+  - induction H as [|x' y Hr IH Hy]; [apply r0|].
+    eapply r1; [exact IH|]. apply succs_s1; auto. apply src_ok_reach; auto.
+  - induction H as [|x' y Hr IH Hy]; [apply r0|].
+    eapply r1; [exact IH|]. apply succs_s1; auto. apply src_ok_reach; auto.
+Qed.
+
+Lemma lookup_ct_s1 : lookup ct_uri s1 = Some (enc_ct E c1).
+Proof. unfold save. cbn [lookup]. rewrite str_eqb_refl, (iter_parts_spec E p Hwf c). reflexivity. Qed.
+
+Lemma ct1_lookup x : In x names -> ct_lookup c1 x = Ok (ct_or c x).
+Proof. apply (ct_after E p Hwf cb c Hcb Hc Henv Hnc). Qed.
+
+Lemma ct_or1 x : In x names -> ct_or c1 x = ct_or c x.
+Proof. intros H. unfold ct_or at 1. rewrite ct1_lookup; auto. Qed.
+
+Lemma blob_reser x : In x names -> is_xml_ct E (ct_or c x) = true ->
+  reser E (blob_or E p c x) = Some (blob_or E p c x).
+Proof.
+  intros Hx Hxml. apply (names_reach E p Hwf c) in Hx as [Hr Hn].
+  destruct (wf_ct_c E p Hwf cb c Hcb Hc x Hr Hn) as (ct & b & Hct & Hb & Hres).
+  unfold blob_or. rewrite Hb, Hxml. unfold ct_or in Hxml. rewrite Hct in Hxml.
+  destruct (Hres Hxml) as (b' & Hb'). rewrite Hb'. destruct Hcodec as (_ & _ & Hid). eapply Hid; eauto.
+Qed.
+
+Lemma conv_out_conv x r : src_ok x -> In r (rels_or_nil E p x) ->
+  conv_rel x (out_rel x (conv_rel x r)) = conv_rel x r.
+Proof.
+  intros Hx Hin. pose proof (rel_sem_roundtrip E p Hwf cb c Hcb Hc x r Hx Hin) as H.
+  unfold rel_sem in H. unfold conv_rel at 1. inversion H as [[H1 H2 H3 H4]].
+  rewrite H1, H2, H3, H4. reflexivity.
+Qed.
+
+Lemma lrel_leb_total (a b : lrel) :
+  rid_leb (l_id a) (l_id b) = false -> rid_leb (l_id b) (l_id a) = true.
+Proof. apply rid_leb_total. Qed.
+
+Lemma out_rels_fix x : src_ok x ->
+  out_rels x (map (conv_rel x) (out_rels x (map (conv_rel x) (rels_or_nil E p x))))
+  = out_rels x (map (conv_rel x) (rels_or_nil E p x)).
+Proof.
+  intros Hx. set (L := map (conv_rel x) (rels_or_nil E p x)).
+  unfold out_rels at 2. rewrite map_map.
+  assert (Hm : map (fun l => conv_rel x (out_rel x l)) (sort_by (fun a b => rid_leb (l_id a) (l_id b)) L)
+               = sort_by (fun a b => rid_leb (l_id a) (l_id b)) L).
+  { rewrite <- (map_id (sort_by _ L)) at 2. apply map_ext_in. intros l Hl.
+    eapply Permutation_in in Hl; [|apply sort_by_perm]. unfold L in Hl.
+    apply in_map_iff in Hl as (r & <- & Hr). apply conv_out_conv; auto. }
+  rewrite Hm. unfold out_rels. rewrite (sort_idem _ lrel_leb_total). reflexivity.
+Qed.
+
+Lemma wf_s1 : wf E s1.
+Proof.
+  destruct Hcodec as (Hdr & Hdc & Hid).
+  split; [|split; [|split]].
+  - exists (enc_ct E c1), c1. split; [apply lookup_ct_s1|]. split; [apply Hdc|].
+    intros x Hx Hn. apply reach_s1 in Hx.
+    assert (Hin : In x names) by (apply (names_reach E p Hwf c); auto).
+    exists (ct_or c x), (blob_or E p c x). split; [apply ct1_lookup; auto|].
+    split; [apply (lookup_save_part E p Hwf c); auto|].
+    intros Hxml. exists (blob_or E p c x). apply blob_reser; auto.
+  - intros x Hx. apply reach_s1 in Hx. pose proof Hx as Hs. apply src_ok_reach in Hs.
+    destruct (wf_rels E p Hwf x Hx) as (rs & Hrs & Hnd & Hall).
+    eexists. split; [apply rels_s1; auto|]. rewrite (rels_or_nil_eq E p _ _ Hrs). split.
+    + unfold out_rels. rewrite map_map.
+      rewrite (map_ext _ l_id) by (intros; apply out_rel_id).
+      eapply Permutation_NoDup; [apply Permutation_map, Permutation_sym, sort_by_perm|].
+      rewrite conv_rel_ids. auto.
+    + intros r Hr. split; [unfold out_rels in Hr; apply in_map_iff in Hr as (l & <- & _); apply out_rel_mode|].
+      intros He. unfold out_rels in Hr. apply in_map_iff in Hr as (l & <- & Hl).
+      eapply Permutation_in in Hl; [|apply sort_by_perm]. apply in_map_iff in Hl as (r0' & <- & Hr0).
+      destruct (Hall r0' Hr0) as [_ Hnr].
+      assert (Hs0 : In r0' (rels_or_nil E p x)) by (rewrite (rels_or_nil_eq E p _ _ Hrs); auto).
+      pose proof (rel_sem_roundtrip E p Hwf cb c Hcb Hc x r0' Hs Hs0) as Hsem.
+      unfold rel_sem in Hsem. rewrite He in Hsem. inversion Hsem as [[H1 H2 H3 H4]].
+      rewrite <- H3 in H4. rewrite H4. apply Hnr. auto.
+  - intros x Hx Hn. apply reach_s1 in Hx. apply (wf_part_name E p Hwf); auto.
+  - intros x y Hx Hy. apply reach_s1 in Hx, Hy. apply (wf_case E p Hwf); auto.
+Qed.
+
+Notation k2 := (spec_pkg E s1 c1).
+Notation names2 := (iter_part_names (spec_pkg E s1 c1)).
+
+Lemma names2_iff x : In x names2 <-> In x names.
+Proof. rewrite (names_reach E s1 wf_s1 c1), (names_reach E p Hwf c), reach_s1. tauto. Qed.
+
+Lemma names2_perm : Permutation names2 names.
+Proof.
+  apply NoDup_Permutation.
+  - apply (proj2 (iter_part_names_spec E s1 wf_s1 c1)).
+  - apply (proj2 (iter_part_names_spec E p Hwf c)).
+  - apply names2_iff.
+Qed.
+
+Lemma rels_or_nil_s1 x : src_ok x ->
+  rels_or_nil E s1 x = out_rels x (map (conv_rel x) (rels_or_nil E p x)).
+Proof. intros Hx. apply (rels_or_nil_eq E s1). apply rels_s1; auto. Qed.
+
+Lemma out_rels_nil x L : out_rels x L = [] <-> L = [].
+Proof.
+  unfold out_rels. split; intros H.
+  - apply (f_equal (@length _)) in H. rewrite map_length in H.
+    rewrite (Permutation_length (sort_by_perm _ L)) in H. destruct L; [auto|discriminate].
+  - subst. reflexivity.
+Qed.
+
+Lemma rels_nil_s1 x : src_ok x -> (rels_or_nil E s1 x = [] <-> rels_or_nil E p x = []).
+Proof.
+  intros Hx. rewrite rels_or_nil_s1 by auto. rewrite out_rels_nil.
+  split; intros H; [destruct (rels_or_nil E p x); [auto|discriminate]|rewrite H; reflexivity].
+Qed.
+
+Lemma blob_or_s1 x : In x names -> blob_or E s1 c1 x = blob_or E p c x.
+Proof.
+  intros Hx. unfold blob_or at 1. rewrite (lookup_save_part E p Hwf c x Hx), (ct_or1 x Hx).
+  destruct (is_xml_ct E (ct_or c x)) eqn:Ex; auto. rewrite blob_reser; auto.
+Qed.
+
+Lemma cti_s2 : content_types_item E (map (spec_part E s1 c1) names2) = c1.
+Proof.
+  assert (Hcong : content_types_item E (map (spec_part E s1 c1) names2)
+                  = content_types_item E (map (spec_part E p c) names2)).
+  { unfold content_types_item, defaults_and_overrides. rewrite (cti_cong E _ (map (spec_part E p c) names2)); auto.
+    rewrite !map_map. apply map_ext_in. intros x Hx. unfold nct. simpl. f_equal.
+    apply ct_or1. apply names2_iff; auto. }
+  rewrite Hcong. apply (cti_perm E Henv).
+  - apply Permutation_map, names2_perm.
+  - rewrite map_map. simpl. rewrite map_id. apply (proj2 (iter_part_names_spec E s1 wf_s1 c1)).
+  - intros a b Ha Hb Hia Hib He.
+    apply in_map_iff in Ha as (x & <- & Hx). apply in_map_iff in Hb as (y & <- & Hy). simpl.
+    apply names2_iff in Hx, Hy. apply (clash_free E p Hwf cb c Hcb Hc Hnc); auto.
+Qed.
+
+Lemma lookup_save_rootrels {B} (E' : env B) (k' : pkg B) :
+  lookup (rels_item_name root) (save E' k') = Some (enc_rels E' (out_rels root (k_rels k'))).
+Proof.
+  unfold save. cbn [lookup].
+  assert (Hne : str_eqb ct_uri (rels_item_name root) = false) by reflexivity.
+  rewrite Hne, str_eqb_refl. reflexivity.
+Qed.
+
+Lemma lookup_save_ct {B} (E' : env B) (k' : pkg B) :
+  lookup ct_uri (save E' k') = Some (enc_ct E' (content_types_item E' (iter_parts k'))).
+Proof. unfold save. cbn [lookup]. rewrite str_eqb_refl. reflexivity. Qed.
+
+Lemma idem_names n : In n (map fst (save E k2)) <-> In n (map fst s1).
+Proof.
+  rewrite (save_names_spec E s1 wf_s1 c1), (save_names_spec E p Hwf c).
+  split; (intros [H|[H|(x & Hx & Hn & H)]]; [auto|auto|right; right; exists x]).
+  - apply reach_s1 in Hx. split; [auto|split; [auto|]]. destruct H as [H|[H H']]; auto. right. split; auto.
+    intros Hnil. apply H'. apply rels_nil_s1; auto. apply src_ok_reach; auto.
+  - split; [apply reach_s1; auto|split; [auto|]]. destruct H as [H|[H H']]; auto. right. split; auto.
+    intros Hnil. apply H'. apply rels_nil_s1; auto. apply src_ok_reach; auto.
+Qed.
+
+Lemma idem_lookup n : lookup n (save E k2) = lookup n s1.
+Proof.
+  destruct (in_dec str_eq_dec n (map fst s1)) as [Hin|Hnin].
+  - apply (save_names_spec E p Hwf c) in Hin as [->|[->|(x & Hx & Hn & [->|[-> Hne]])]].
+    + rewrite lookup_save_ct, lookup_ct_s1, (iter_parts_spec E s1 wf_s1 c1), cti_s2. reflexivity.
+    + rewrite !lookup_save_rootrels. simpl. rewrite rels_or_nil_s1 by (left; auto).
+      rewrite out_rels_fix by (left; auto). reflexivity.
+    + assert (Hin : In x names) by (apply (names_reach E p Hwf c); auto).
+      rewrite (lookup_save_part E s1 wf_s1 c1) by (apply names2_iff; auto).
+      rewrite (lookup_save_part E p Hwf c) by auto. f_equal. apply blob_or_s1; auto.
+    + assert (Hin : In x names) by (apply (names_reach E p Hwf c); auto).
+      assert (Hs : src_ok x) by (right; auto).
+      rewrite (lookup_NoDup_In _ _ _ (save_names_NoDup E s1 wf_s1 c1)
+                 (in_save_rels E s1 wf_s1 c1 x (proj2 (names2_iff x) Hin)
+                    (fun H => Hne (proj1 (rels_nil_s1 x Hs) H)))).
+      rewrite (lookup_NoDup_In _ _ _ (save_names_NoDup E p Hwf c) (in_save_rels E p Hwf c x Hin Hne)).
+      rewrite rels_or_nil_s1 by auto. rewrite out_rels_fix by auto. reflexivity.
+  - assert (Hnin2 : ~ In n (map fst (save E k2))) by (rewrite idem_names; auto).
+    apply lookup_None in Hnin, Hnin2. congruence.
+Qed.
+End Idem.
+
+Lemma c01_idem {blob} (E : env blob) p :
+  wf E p -> codec_ok E -> env_ok E -> no_default_clash E p ->
+  exists k k2, load E p = Ok k /\ load E (save E k) = Ok k2 /\ same_package (save E k2) (save E k).
+Proof.
+  intros Hwf Hcodec Henv Hnc. destruct (load_wf E p Hwf) as (cb & c & Hcb & Hc & Hl).
+  pose proof (wf_s1 E p Hwf cb c Hcb Hc Hcodec Henv Hnc) as Hwf1.
+  destruct (load_wf E _ Hwf1) as (cb1 & c1 & Hcb1 & Hc1 & Hl1).
+  exists (spec_pkg E p c), (spec_pkg E (save E (spec_pkg E p c)) c1). split; auto. split; auto.
+  rewrite (lookup_ct_s1 E p Hwf c) in Hcb1. inversion Hcb1; subst cb1.
+  destruct Hcodec as (Hdr & Hdc & Hid). rewrite Hdc in Hc1. inversion Hc1; subst c1.
+  split.
+  - apply (idem_names E p Hwf cb c Hcb Hc (conj Hdr (conj Hdc Hid)) Henv Hnc).
+  - apply (idem_lookup E p Hwf cb c Hcb Hc (conj Hdr (conj Hdc Hid)) Henv Hnc).
+Qed.
+
 (** ---- the extracted instance and two concrete packages (non-vacuity, refutation) ---- *)
 From V.model Require Import OpcRun.
 From V.gen Require Import GenC01.
